@@ -42,6 +42,11 @@ type C13Scenario struct {
 	// Refuse lists senders (indices) whose first recipient the server refuses with 550: their call
 	// must fail — and must not disturb anybody else's.
 	Refuse []int `json:"refuse,omitempty"`
+	// RefuseAll: for the senders in Refuse the server refuses every recipient, not just the first.
+	RefuseAll bool `json:"refuseAll,omitempty"`
+	// FailProducer lists senders whose body writer fails in the middle of the content: their call
+	// must fail, nothing of their message may be committed, nobody else may notice.
+	FailProducer []int `json:"failProducer,omitempty"`
 }
 
 type c13 struct{}
@@ -83,6 +88,12 @@ func (p *c13) Gen(seed uint64, i int, tier string) (any, bool) {
 	if r.Chance(1, 3) {
 		for k := 0; k < 1+r.Intn(2); k++ {
 			sc.Refuse = append(sc.Refuse, r.Intn(sc.N))
+		}
+		sc.RefuseAll = r.Chance(1, 2)
+	}
+	if r.Chance(1, 4) {
+		for k := 0; k < 1+r.Intn(2); k++ {
+			sc.FailProducer = append(sc.FailProducer, r.Intn(sc.N))
 		}
 	}
 	return sc, true
@@ -211,6 +222,17 @@ func (p *c13) Exec(t *testing.T, scAny any) Outcome {
 		}
 		for _, i := range sc.Refuse {
 			scfg.Rules = append(scfg.Rules, refsmtpd.Rule{Verb: "RCPT", LineContains: fmt.Sprintf("<a-g%d@", i), Action: refsmtpd.Action{Code: 550, Text: "no such user"}})
+			if sc.RefuseAll {
+				scfg.Rules = append(scfg.Rules, refsmtpd.Rule{Verb: "RCPT", LineContains: fmt.Sprintf("<b-g%d@", i), Action: refsmtpd.Action{Code: 550, Text: "no such user either"}})
+			}
+		}
+		// a failing body writer costs its connection (the DATA section can only be aborted by
+		// dropping it), so only senders with a connection of their own get one
+		failing := map[int]bool{}
+		for _, i := range sc.FailProducer {
+			if sc.Mode == "dialandsend" || (sc.Mode == "mixed" && i%2 == 1) {
+				failing[i] = true
+			}
 		}
 		env = &c13Net{k: k, srv: refsmtpd.New(k, scfg, TLSMat), pipes: make([]*sim.Pipe, sc.N+2)}
 		return func() {
@@ -225,6 +247,12 @@ func (p *c13) Exec(t *testing.T, scAny any) Outcome {
 				if sc.Rich {
 					spec.Parts = append(spec.Parts, PartSpec{Type: "text/html", Kind: "string", Content: ContentSpec{Data: []byte("<p>" + tok + "</p>\r\n")}})
 					spec.Attach = []FileSpec{{Name: tok + ".bin", Content: ContentSpec{Data: bytes.Repeat([]byte(tok+" attachment line\r\n"), 20), Chunks: []int{7}}}}
+				}
+				if failing[i] {
+					// a body writer that gives up half way, on every invocation
+					body := bytes.Repeat([]byte("line of the body of "+tok+" that is never completed\r\n"), 8)
+					spec.Parts[0] = PartSpec{Type: "text/plain", Enc: sim.Pick(sim.NewRand(sc.Sched+uint64(i)), []string{"quoted-printable", "base64", "8bit"}),
+						Content: ContentSpec{Data: body, Chunks: []int{11}, Fail: true, FailAt: len(body) / 2}}
 				}
 				built[i] = BuildMsg(spec, BuildOpts{})
 				slots[i].mode = "send"
@@ -336,6 +364,15 @@ func (p *c13) Exec(t *testing.T, scAny any) Outcome {
 	for _, i := range sc.Refuse {
 		refused[i] = true
 	}
+	for _, i := range sc.FailProducer {
+		if !(sc.Mode == "dialandsend" || (sc.Mode == "mixed" && i%2 == 1)) {
+			continue
+		}
+		if !refused[i] {
+			out.stat("fault.fired.failing_body_writer", 1)
+		}
+		refused[i] = true // same expectation: the call fails and nothing is committed
+	}
 	for i, b := range built {
 		s := slots[i]
 		tok := b.Spec.Token
@@ -421,10 +458,15 @@ func (p *c13) Shrink(scAny any) []any {
 		if n < sc.N {
 			c := *sc
 			c.N = n
-			c.Refuse = nil
+			c.Refuse, c.FailProducer = nil, nil
 			for _, i := range sc.Refuse {
 				if i < n {
 					c.Refuse = append(c.Refuse, i)
+				}
+			}
+			for _, i := range sc.FailProducer {
+				if i < n {
+					c.FailProducer = append(c.FailProducer, i)
 				}
 			}
 			out = append(out, &c)
@@ -445,6 +487,11 @@ func (p *c13) Shrink(scAny any) []any {
 		c.Refuse = nil
 		out = append(out, &c)
 	}
+	if len(sc.FailProducer) > 0 {
+		c := *sc
+		c.FailProducer = nil
+		out = append(out, &c)
+	}
 	if sc.Mode == "mixed" {
 		for _, m := range []string{"send", "dialandsend"} {
 			c := *sc
@@ -462,7 +509,7 @@ func (p *c13) Shrink(scAny any) []any {
 
 func (p *c13) Info() PropInfo {
 	return PropInfo{
-		Rule: "seeded schedules: N in {2,3,4,8,16} (every 97th run: 64) goroutines with distinct messages, optionally with SMTP AUTH on every connection (LOGIN, SCRAM-SHA-256, CRAM-MD5, PLAIN, auto-discovery) and optionally with one or two senders whose recipient the server refuses (their call must fail without disturbing the others), (single-part, or multipart with an attachment written in 7-byte chunks) on one Client in mode {all Send on one dialled connection, all DialAndSend, alternating}; the kernel decides at every lock, unlock, read-lock, read-unlock and connection read/write which enabled task runs next, by policy {uniform random, PCT with 1..3 priority change points, starve-one}; server-side read segmentation drawn per read; every run is non-trivial; distinct = distinct hashes of the sequence of (task, yield point) decisions actually taken",
+		Rule: "seeded schedules: N in {2,3,4,8,16} (every 97th run: 64) goroutines with distinct messages, optionally with SMTP AUTH on every connection (LOGIN, SCRAM-SHA-256, CRAM-MD5, PLAIN, auto-discovery) and optionally with one or two senders whose first or every recipient the server refuses, and one or two whose body writer fails half way (their calls must fail, nothing of theirs may be committed, nobody else may notice), (single-part, or multipart with an attachment written in 7-byte chunks) on one Client in mode {all Send on one dialled connection, all DialAndSend, alternating}; the kernel decides at every lock, unlock, read-lock, read-unlock and connection read/write which enabled task runs next, by policy {uniform random, PCT with 1..3 priority change points, starve-one}; server-side read segmentation drawn per read; every run is non-trivial; distinct = distinct hashes of the sequence of (task, yield point) decisions actually taken",
 		Assumptions: []string{"interleavings are explored at the instrumented yield points (lock operations of packages mail and smtp, simulated connection reads and writes); between two yield points a task runs alone, unsynchronised accesses there are the race detector's job (it sees every access under -race, and the kernel creates no happens-before edge between tasks)",
 			"the seeded crypto/rand reader has a mutex of its own (a small masking source for races between calls that both draw randomness)",
 			"latencies are a few nanoseconds of virtual time in this build (tasks park by polling), timeouts never fire"},
